@@ -63,7 +63,7 @@ SOURCES = [
     "real program output /repo/iodata/test/data/PCGamess_PUNCH.dat (PC-GAMESS/Firefly): record order, literal headers, edit descriptors",
 ]
 CLASSES = ["opt_hess_n1", "opt_hess_n2", "opt_hess_n3", "opt_hess_n4", "opt_hess_n5", "opt_hess_n6", "optimize_only", "point_group", "energy_only",
-           "gradient_only", "hessian_only", "wide_coords", "long_names", "cn1_symmetry", "dollar_col2"]
+           "gradient_only", "hessian_only", "wide_coords", "long_names", "cn1_symmetry", "dollar_col2", "large_hessian"]
 
 MASSES = {1: 1.00782, 6: 12.0, 7: 14.00307, 8: 15.99491, 9: 18.9984, 17: 34.96885, 16: 31.97207, 35: 78.91834, 3: 7.016, 14: 27.97693}
 
@@ -77,6 +77,9 @@ def _r(arr, fmt):
 def generate(rng, klass):
     if klass.startswith("opt_hess_n"):
         natom = int(klass[-1])
+    elif klass == "large_hessian":
+        # 3N around 100: the I2 row label of $HESS wraps (row 100 is printed as ' 0', 101 as ' 1', ...)
+        natom = int(rng.choice([33, 34, 40]))
     elif klass in ("wide_coords", "long_names", "cn1_symmetry", "dollar_col2", "hessian_only"):
         natom = int(rng.integers(2, 7))
     else:
